@@ -13,7 +13,8 @@ class C02(FullCheck):
           'value/declared exception delivered to a caller is the server\'s reply for that very request. '
           'non-trivial = at least one call reached a server; distinct as C01')
   REQUIRED_CLASSES = ('thrift', 'mux', 'timer-before-reply', 'reply:late', 'reply:near-deadline', 'reply:never',
-                      'kill-conns', 'io-fault:recv', 'send-stall', 'short-sends')
+                      'kill-conns', 'io-fault:recv', 'send-stall', 'short-sends', 'reply:undecodable',
+                      'unserialisable-argument')
 
   def bias(self, rng):
     return {'close_after_reply': 0.05, 'send_stall': 0.3, 'short_sends': 0.25}
